@@ -92,7 +92,7 @@ def run(tier: str, seed: int) -> Report:
     for rec, w in zip(traces, wires):
         rec["wire"] = w
     # ---- 5. code -> spec: TLC validates every execution
-    verdicts, _, results = R.validate("Trace_UdsLayoutReq", traces, chunk=3000 if tier == "quick" else 8000)
+    verdicts, _, results = R.validate("Trace_UdsLayoutReq", traces, chunk=3000)
     for res in results:
         rep.add_tlc(res, "Trace_UdsLayoutReq batch")
     rep.traces = len(traces)
@@ -190,10 +190,13 @@ def replay(path: str) -> int:
     exp, _ = R.export_cases(3)
     classes = R.request_classes(exp["req_layout"])
     traces = []
+    done: set[str] = set()
     for v in data["violations"]:
         d = v["detail"]
-        if "kind" not in d or d["kind"] not in classes:
+        key = json.dumps([d.get("kind"), d.get("f")], sort_keys=True)
+        if "kind" not in d or d["kind"] not in classes or key in done:
             continue
+        done.add(key)
         rec, _ = R.exec_request(classes[d["kind"]], d["kind"], d["f"])
         rec["wire"] = R.exec_wire([(d["kind"], d["f"])])[0]
         traces.append(rec)
